@@ -142,7 +142,7 @@ def case_term(trace):
     if sel is not None and len(sel["calls"]) == 1 and len(sel["choices"]) == 1:
         fin = f"({c08.c_call(sel['calls'][0])}, {cz(sel['choices'][0])}, {takio.c_move(sel['move'])})"
     return (f"({c08.c_fme(f32(spec['cutoff']))}, {c08.c_fme(mix)}, {c08.c_fme(spec['C'])}, "
-            f"{takio.c_pos(trace['root_pos'])}, {phs}, {c08.c_evals(trace)}, {copt(fin)})")
+            f"{takio.c_pos(c08.rebuild(trace['root_snap']))}, {phs}, {c08.c_evals(trace)}, {copt(fin)})")
 
 
 def examine(trace):
@@ -185,7 +185,7 @@ def one_search(spec):
         problems = [{"clause": "the search completes", "crash": trace["crash"]}]
     out = {"spec": spec, "key": c08.spec_key(spec), "problems": problems[:6], "c08_problems": c08_problems[:3],
            "stats": dict(st), "hypothesis_not_met": c08_stats["hypothesis_not_met"], "term": None,
-           "root_position": takio.j_pos(trace["root_pos"]),
+           "root_position": c08.j_snap(trace["root_snap"]),
            "impl_tree": c08.tree_summary(trace["tree"], 1) if trace.get("tree") is not None else None, "sample": None}
     if (not problems and not trace["crash"] and c08.representable(trace) and not c08_stats["inexact_noise_mix"]
             and not c08_stats["hypothesis_not_met"]):
